@@ -697,7 +697,8 @@ func checkC08(c *Ctx) {
 		st := c.style(c.R.Chance(1, 5))
 		inText, orText := st.Render(inRule), c.style(true).Render(orRule)
 		m := obj.GoMap()
-		a := evalFresh(inText, m)
+		// the list rule now and then on an evaluator that has already seen other objects (members among them)
+		a := evalOn(inText, m, poisonObjects(c.R, inRule))
 		b := evalFresh(orText, m)
 		c.Res.Evaluations++
 		c.count("kind_" + kind)
